@@ -66,6 +66,22 @@
 //	    order (R10); the default case maps a scalar to the scalar of `NVal`.
 //	R13 scopes.  Go locals become Lean binders with unique names; a declaration that shadows a variable of
 //	    an enclosing block is rejected; a variable bound by a failed `x, ok := …` is undefined.
+//	    `a, b := e1, e2` evaluates e1, e2 in order and then binds both.
+//	R14 equivalent spellings (each is translated to the Lean of the spelling it is equivalent to).
+//	    (a) `len(values)%2` is `len(values)&1` (a length is not negative), and a parity is 0 or 1, so
+//	        `p != 0` is `p == 1` and `p == 0` is `p != 1`.
+//	    (b) `[]field{}` has length and capacity 0 — every append copies, so it is a value: it may be held by a
+//	        local and `&list{val: x}` of such a local is `&list{val: []field{}}`.  A `map[string]field{}` held by
+//	        a local is a reference: it may become the container of ONE cell (`&object{val: m}` / `ego.val = m`),
+//	        a second use is rejected.
+//	    (c) `fields := ego.val` copies a reference to the map (a slice header): while the heap expression is
+//	        still the one `fields` was read in, reading `fields` (range, len, lookup) is reading `ego.val`.
+//	    (d) R12: `x, ok := value.(Object)` / `.(List)` on the pure tree is a `match` over all constructors of
+//	        `JVal`; the rest of the function is executed once per constructor with `value` refined to it
+//	        (an `.obj` is an Object, a `.list` a List, a scalar neither — the same reading as the type
+//	        switch, so the same Lean), and an assertion on a refined value is decided statically.
+//	    (e) the message of `panic(fmt.Sprintf(F, …))` is F with every plain `%s` whose argument is a string
+//	        literal replaced by that literal (what Sprintf prints), before the prefix table is consulted.
 package main
 
 import (
@@ -175,6 +191,7 @@ var objFieldCtors = map[string][2]string{"newString": {"str", ".str"}, "newBool"
 type ov struct {
 	sort string // str val field goval bool int kind ref cell objaddr pairs pairkey strs slist closure
 	// cbfun cblog gomap emptymap emptyslice unit nil goint gof32 float jval
+	// valalias (R14c)  jobj jlist jscalar (a tree whose constructor is known: R12, R14d)
 	lean string
 	// static knowledge
 	known    bool // a constant: n (int) / b (bool)
@@ -196,6 +213,7 @@ type ov struct {
 	freshMap bool   // gomap: created by make, assigned with range keys only
 	whole    string // goval bound by a type switch: Lean expression of the whole value
 	depth    int    // block depth at which the variable was declared
+	tok      string // emptymap: identity of the freshly made Go map (R14b)
 }
 
 type obinder struct{ name, typ string }
@@ -229,6 +247,8 @@ type oenv struct {
 	next okont
 	// block depth (Go scopes): a declaration that shadows a variable of an enclosing block is rejected
 	depth int
+	// R14b: the fresh Go maps that already are the container of a cell
+	spent map[string]bool
 }
 
 func (e *oenv) clone() *oenv {
@@ -242,7 +262,22 @@ func (e *oenv) clone() *oenv {
 	for k, v := range e.uninit {
 		c.uninit[k] = v
 	}
+	c.spent = make(map[string]bool, len(e.spent))
+	for k, v := range e.spent {
+		c.spent[k] = v
+	}
 	return &c
+}
+
+// R14b: a fresh Go map becomes the container of a cell (env is a private clone)
+func (g *ogen) spend(at ast.Node, env *oenv, v ov) {
+	if v.tok == "" {
+		return
+	}
+	if env.spent[v.tok] {
+		failAt(at, "the same fresh map becomes the container of a second cell")
+	}
+	env.spent[v.tok] = true
 }
 
 type okont func(*oenv) lnode
@@ -254,6 +289,7 @@ type ogen struct {
 	defs  []string          // helper definitions of the function being translated
 	nloop int
 	cur   ast.Node // the statement being executed (for error positions)
+	nmaps int      // R14b: fresh Go maps seen so far
 }
 
 var objReserved = map[string]bool{"some": true, "none": true, "true": true, "false": true,
@@ -388,7 +424,7 @@ func conv(at ast.Node, v ov, want string) string {
 		}
 	case "NVal":
 		switch {
-		case v.sort == "nval":
+		case v.sort == "nval", v.sort == "jscalar":
 			return v.lean
 		case v.sort == "gomap" && v.whole == "NVal":
 			return ".dict " + op(v.lean)
@@ -687,6 +723,9 @@ func (g *ogen) panicKind(call *ast.CallExpr) string {
 		if isCall {
 			if x, sel, ok2 := selOf(c.Fun); ok2 && x == "fmt" && sel == "Sprintf" && len(c.Args) >= 1 {
 				msg, ok = stringLit(c.Args[0])
+				if ok {
+					msg = spliceLiterals(msg, c.Args[1:])
+				}
 			}
 		}
 	}
@@ -702,9 +741,60 @@ func (g *ogen) panicKind(call *ast.CallExpr) string {
 	return ""
 }
 
+// R14e: the format with every plain `%s` whose argument is a string literal replaced by the literal
+func spliceLiterals(format string, args []ast.Expr) string {
+	var b strings.Builder
+	n := 0
+	for i := 0; i < len(format); i++ {
+		if format[i] != '%' || i+1 >= len(format) {
+			b.WriteByte(format[i])
+			continue
+		}
+		if format[i+1] == '%' {
+			b.WriteString("%%")
+			i++
+			continue
+		}
+		// a verb: flags, width, precision, then the verb character; `*` and `[n]` change the argument order: give up
+		j := i + 1
+		for j < len(format) && strings.IndexByte("+-# 0123456789.", format[j]) >= 0 {
+			j++
+		}
+		if j >= len(format) || format[j] == '*' || format[j] == '[' {
+			return format
+		}
+		verb := format[i : j+1]
+		if n < len(args) && verb == "%s" {
+			if lit, ok := stringLit(args[n]); ok {
+				b.WriteString(strings.ReplaceAll(lit, "%", "%%"))
+				n++
+				i = j
+				continue
+			}
+		}
+		b.WriteString(verb)
+		n++
+		i = j
+	}
+	return b.String()
+}
+
 func (g *ogen) isRecvVal(e ast.Expr, env *oenv) bool {
 	x, sel, ok := selOf(unparen(e))
 	return ok && env.recvName != "" && x == env.recvName && sel == "val"
+}
+
+// R14c: `ego.val`, or a local that holds `ego.val` read in the current heap
+func (g *ogen) readsRecvVal(e ast.Expr, env *oenv) bool {
+	if g.isRecvVal(e, env) {
+		return true
+	}
+	id, ok := unparen(e).(*ast.Ident)
+	if !ok || env.recvAddr == "" {
+		return false
+	}
+	v, ok := env.locals[id.Name]
+	return ok && v.sort == "valalias" && v.addr == env.recvAddr && v.kind == env.recvKind && v.itemHeap == env.heap
 }
 
 // the receiver's container as a Lean expression in heap `heap`
@@ -852,6 +942,24 @@ func (g *ogen) assign(st *ast.AssignStmt, env *oenv, k okont) lnode {
 			return k(e)
 		})
 	}
+	// a, b := e1, e2   (R13)
+	if st.Tok == token.DEFINE && len(st.Lhs) >= 2 && len(st.Rhs) == len(st.Lhs) {
+		names := make([]string, len(st.Lhs))
+		for i, l := range st.Lhs {
+			id, ok := l.(*ast.Ident)
+			if !ok {
+				failAt(st, "unrecognised assignment: %s", src(st))
+			}
+			names[i] = id.Name
+		}
+		return g.exprs(st.Rhs, env, func(e *oenv, vals []ov) lnode {
+			e = e.clone()
+			for i, n := range names {
+				g.bind(e, n, vals[i])
+			}
+			return k(e)
+		})
+	}
 	// x, ok := e.(T)   /   x, ok := ego.val[key]
 	if st.Tok == token.DEFINE && len(st.Lhs) == 2 && len(st.Rhs) == 1 {
 		x, ok1 := st.Lhs[0].(*ast.Ident)
@@ -876,7 +984,7 @@ func (g *ogen) assign(st *ast.AssignStmt, env *oenv, k okont) lnode {
 		some := func(name string) string { return "some " + name }
 		switch rhs := unparen(st.Rhs[0]).(type) {
 		case *ast.IndexExpr:
-			if !g.isRecvVal(rhs.X, env) || env.recvKind != "object" {
+			if !g.readsRecvVal(rhs.X, env) || env.recvKind != "object" {
 				failAt(st, "unrecognised map read: %s", src(st))
 			}
 			return g.expr(rhs.Index, env, "", func(e *oenv, key ov) lnode {
@@ -906,6 +1014,24 @@ func (g *ogen) assign(st *ast.AssignStmt, env *oenv, k okont) lnode {
 				case v.sort == "field" && (goT == "Object" || goT == "List"):
 					return both(e, some, "Val", "L.sel "+op(e.heap)+" false ."+objKinds[goT]+" "+op(v.lean),
 						func(name string) ov { return ov{sort: "val", lean: name} })
+				case v.sort == "jval" && (goT == "Object" || goT == "List"):
+					// R14d
+					id, isVar := unparen(rhs.X).(*ast.Ident)
+					if !isVar {
+						failAt(st, "a type assertion on a tree that is not held by a variable: %s", src(rhs))
+					}
+					return g.treeAssert(e, id.Name, v, goT, x.Name, okv.Name, k)
+				case (v.sort == "jobj" || v.sort == "jlist" || v.sort == "jscalar") && (goT == "Object" || goT == "List"):
+					// R14d: the constructor is known
+					e = e.clone()
+					if (v.sort == "jobj" && goT == "Object") || (v.sort == "jlist" && goT == "List") {
+						g.bind(e, x.Name, v)
+						g.bind(e, okv.Name, boolOf(true))
+					} else {
+						g.bind(e, x.Name, ov{sort: "undef"})
+						g.bind(e, okv.Name, boolOf(false))
+					}
+					return k(e)
 				case v.sort == "val" && objKinds[goT] != "":
 					no := e.clone()
 					g.bind(no, x.Name, ov{sort: "undef"})
@@ -945,6 +1071,7 @@ func (g *ogen) assign(st *ast.AssignStmt, env *oenv, k okont) lnode {
 				failAt(st, "unrecognised assignment to %s.val: %s", e.recvName, src(st))
 			}
 			e = e.clone()
+			g.spend(st, e, v)
 			e.heap = op(e.heap) + ".setFields " + e.recvAddr + " []"
 			return k(e)
 		})
@@ -1085,6 +1212,17 @@ func (g *ogen) expr(x ast.Expr, env *oenv, hint string, k ovkont) lnode {
 			}
 			return k(env, ov{sort: "int", known: true, n: n})
 		}
+		if str, ok := stringLit(x); ok {
+			// Str is a list of characters
+			var cs []string
+			for _, r := range str {
+				if r < 0x20 || r > 0x7e || r == '\'' || r == '\\' {
+					failAt(x, "unsupported string literal %s", x.Value)
+				}
+				cs = append(cs, "'"+string(r)+"'")
+			}
+			return k(env, ov{sort: "str", lean: "([" + strings.Join(cs, ", ") + "] : Str)"})
+		}
 		failAt(x, "unsupported literal %s", x.Value)
 
 	case *ast.FuncLit:
@@ -1119,7 +1257,26 @@ func (g *ogen) expr(x ast.Expr, env *oenv, hint string, k ovkont) lnode {
 			case emptyList.MatchString(src(cl)):
 				kind, cell = "list", "Cell.list [] 0"
 			default:
-				failAt(x, "unsupported allocation: %s", src(x))
+				// R14b: the empty container is held by a local
+				held := ov{}
+				if tid, ok := cl.Type.(*ast.Ident); ok && len(cl.Elts) == 1 {
+					if kv, ok := cl.Elts[0].(*ast.KeyValueExpr); ok && isIdent(kv.Key, "val") {
+						if id, ok := unparen(kv.Value).(*ast.Ident); ok {
+							held = env.locals[id.Name]
+						}
+					}
+					switch {
+					case tid.Name == "object" && held.sort == "emptymap" && held.tok != "":
+						kind, cell = "object", "Cell.obj [] 0"
+					case tid.Name == "list" && held.sort == "emptyslice":
+						kind, cell = "list", "Cell.list [] 0"
+					}
+				}
+				if kind == "" {
+					failAt(x, "unsupported allocation: %s", src(x))
+				}
+				env = env.clone()
+				g.spend(x, env, held)
 			}
 			e := env.clone()
 			addr := g.fresh(e, hint, "Nat")
@@ -1133,7 +1290,10 @@ func (g *ogen) expr(x ast.Expr, env *oenv, hint string, k ovkont) lnode {
 	case *ast.CompositeLit:
 		switch src(x) {
 		case "map[string]field{}":
-			return k(env, ov{sort: "emptymap"})
+			g.nmaps++
+			return k(env, ov{sort: "emptymap", tok: fmt.Sprint("map", g.nmaps)})
+		case "[]field{}":
+			return k(env, ov{sort: "emptyslice"}) // R14b
 		}
 		failAt(x, "unsupported composite literal: %s", src(x))
 
@@ -1167,6 +1327,10 @@ func (g *ogen) expr(x ast.Expr, env *oenv, hint string, k ovkont) lnode {
 		})
 
 	case *ast.SelectorExpr:
+		if g.isRecvVal(x, env) {
+			// R14c: a copy of the reference, good while the heap is env.heap
+			return k(env, ov{sort: "valalias", addr: env.recvAddr, kind: env.recvKind, itemHeap: env.heap})
+		}
 		failAt(x, "unsupported selector: %s", src(x))
 
 	case *ast.CallExpr:
@@ -1197,6 +1361,13 @@ func (g *ogen) binary(x *ast.BinaryExpr, l, r ov) ov {
 		if l.sym == "len" && r.known && r.n == 1 {
 			return ov{sort: "int", sym: "parity"}
 		}
+	case token.REM:
+		if constInts && r.n != 0 {
+			return ov{sort: "int", known: true, n: l.n % r.n}
+		}
+		if l.sym == "len" && r.known && r.n == 2 {
+			return ov{sort: "int", sym: "parity"} // R14a
+		}
 	case token.ADD:
 		if constInts {
 			return ov{sort: "int", known: true, n: l.n + r.n}
@@ -1221,6 +1392,10 @@ func (g *ogen) binary(x *ast.BinaryExpr, l, r ov) ov {
 			return boolOf((l.n == r.n) == eq)
 		case l.sym == "parity" && r.known && r.n == 1:
 			// len(values)&1 == 1
+			return ov{sort: "bool", lean: neg("odd")}
+		case l.sym == "parity" && r.known && r.n == 0:
+			// R14a: len(values)&1 != 0
+			eq = !eq
 			return ov{sort: "bool", lean: neg("odd")}
 		case plainInts:
 			return ov{sort: "bool", lean: neg(op(intLean(l)) + " == " + op(intLean(r)))}
@@ -1284,7 +1459,7 @@ func (g *ogen) call(x *ast.CallExpr, env *oenv, hint string, k ovkont) lnode {
 			if len(x.Args) != 1 {
 				break
 			}
-			if g.isRecvVal(x.Args[0], env) {
+			if g.readsRecvVal(x.Args[0], env) {
 				return k(env, ov{sort: "int", lean: "((" + env.container(env.heap) + ").length : Int)"})
 			}
 			return g.expr(x.Args[0], env, "", func(e *oenv, v ov) lnode {
@@ -2051,7 +2226,7 @@ func (g *ogen) rangeStmt(st *ast.RangeStmt, env *oenv, k okont) lnode {
 		return id.Name
 	}
 	keyN, valN := varName(st.Key), varName(st.Value)
-	if g.isRecvVal(st.X, env) {
+	if g.readsRecvVal(st.X, env) {
 		if env.recvKind != "object" {
 			failAt(st, "a range over the elements of a list is not supported here")
 		}
@@ -2245,7 +2420,7 @@ func (g *ogen) typeSwitch(st *ast.TypeSwitchStmt, env *oenv, k okont) lnode {
 		return g.stmts(deflt.Body, inner, leave)
 	}
 	// (a) the dynamic type of the stored field ego.val[key] (a missing key reads as nil)
-	if ix, ok := unparen(ta.X).(*ast.IndexExpr); ok && g.isRecvVal(ix.X, env) && env.recvKind == "object" {
+	if ix, ok := unparen(ta.X).(*ast.IndexExpr); ok && g.readsRecvVal(ix.X, env) && env.recvKind == "object" {
 		if bound != "" {
 			failAt(st, "a type switch over a stored field that binds the value is not supported")
 		}
@@ -2416,6 +2591,44 @@ func (g *ogen) treeSwitch(st *ast.TypeSwitchStmt, e *oenv, v ov, bound string, c
 			g.bind(ce, bound, ov{sort: "nval", lean: lean})
 		}
 		out.arms = append(out.arms, lArm{pat: pat, body: runDefault(ce)})
+	}
+	return out
+}
+
+// R14d: `x, ok := value.(Object)` / `value.(List)` on the pure tree held by the variable `varName`: one arm per
+// constructor, the rest of the function is executed in each with the variable refined to the constructor
+func (g *ogen) treeAssert(e *oenv, varName string, v ov, goT, xName, okName string, k okont) lnode {
+	old, isLocal := e.locals[varName]
+	if !isLocal || old.sort != "jval" || old.lean != v.lean {
+		failAt(g.cur, "a type assertion on a tree that is not held by a variable")
+	}
+	type ctor struct{ pat, hint, typ, sort, nval string }
+	ctors := []ctor{{".obj", "kvs", "List (Str × JVal)", "jobj", ""}, {".list", "xs", "List JVal", "jlist", ""},
+		{".null", "", "", "jscalar", ".nil"}, {".bool", "b", "Bool", "jscalar", ".bool"}, {".int", "i", "Int", "jscalar", ".int"},
+		{".float", "f", "F64", "jscalar", ".float"}, {".str", "s", "Str", "jscalar", ".str"}}
+	out := lMatch{scrut: v.lean}
+	for _, c := range ctors {
+		ce := e.clone()
+		pat, rv := c.pat, ov{sort: c.sort, lean: c.nval}
+		if c.hint != "" {
+			n := g.fresh(ce, c.hint, c.typ)
+			pat = c.pat + " " + n
+			if c.sort == "jscalar" {
+				rv.lean = c.nval + " " + n
+			} else {
+				rv.lean = n
+			}
+		}
+		rv.depth = old.depth
+		ce.locals[varName] = rv
+		if (c.sort == "jobj" && goT == "Object") || (c.sort == "jlist" && goT == "List") {
+			g.bind(ce, xName, rv)
+			g.bind(ce, okName, boolOf(true))
+		} else {
+			g.bind(ce, xName, ov{sort: "undef"})
+			g.bind(ce, okName, boolOf(false))
+		}
+		out.arms = append(out.arms, lArm{pat: pat, body: k(ce)})
 	}
 	return out
 }
